@@ -78,6 +78,7 @@ inductive Op where
   | setLenSpare (v k : Nat) (typed : Bool)
   | rawrt (v : Nat)
   | rawparts (v : Nat)
+  | lazyDc (v i depth ty : Nat)
   deriving Repr
 
 /-- per-case configuration: every element type of a case has this layout -/
@@ -663,6 +664,19 @@ def step (cfg : Cfg) (op : Op) : WM Out :=
       setVec v (VecSt.fromRawParts p)
       pure (fields p ++ fields p.clone)
     | _ => WM.ub "bad-op: raw parts on this backend (does not type-check)"
+
+  | .lazyDc v i _ ty => do
+    -- `v.at(i).lazy_clone()[.lazy_clone()…].downcast::<T>()`: the type is checked first, then the
+    -- element is cloned into the caller's hands; a refused lazy clone is dropped without any effect
+    let x ← getVec v
+    if i < x.len then
+      if ty ≠ x.ty then pure ["N"]
+      else do
+        let id ← readElem v i
+        let n ← cloneElem id
+        hold n
+        pure [cfg.tok n]
+    else WM.panic "called `Option::unwrap()` on a `None` value"
 
 /-- one script step: the library call(s), then the caller destroys the raw values the library
 did not take -/
